@@ -115,7 +115,17 @@ def relations(ctx, per_spec):
             case = dict(spec=spec.name, n=n, flavour=flavour, b=b, seed=seed, X=data["X"], y=data["y"], y_true=data["y_true"])
             # --- (b) representation equivalence ----------------------------------------------
             qn, Un, e1 = run(spec, data, None, b, seed)
-            qi, Ui, e2 = run(spec, data, unl.copy(), b, seed)
+            # the unlabeled indices designate a *set*: half of the time they are handed over in another order
+            # and / or with repeated entries
+            idx_arg = unl.copy()
+            r1 = rng.random()
+            if r1 < 0.5 and len(unl) >= 2:
+                idx_arg = np.array(rng.sample(list(unl), len(unl)))
+                if r1 < 0.2:
+                    idx_arg = np.concatenate([idx_arg, idx_arg[: rng.randint(1, 2)]])
+                ctx.count("repr_indices_unsorted_or_repeated")
+            case["idx_arg"] = idx_arg.tolist()
+            qi, Ui, e2 = run(spec, data, idx_arg.copy(), b, seed)
             ctx.case((spec.name, "repr", n, seed), len(unl) >= 3, sample=dict(summary(case), relation="None vs indices vs rows",
                                                                               picks_none=None if qn is None else qn.tolist(), picks_idx=None if qi is None else qi.tolist()))
             if e1 or e2:
@@ -191,7 +201,7 @@ def replay(payload):
     rel = r.get("relation")
     if rel == "none-vs-idx":
         _, A, _ = run(spec, data, None, r["b"], r["seed"])
-        _, B, _ = run(spec, data, unl.copy(), r["b"], r["seed"])
+        _, B, _ = run(spec, data, np.array(r.get("idx_arg", unl.tolist())), r["b"], r["seed"])
         bad = not np.array_equal(A[:1], B[:1], equal_nan=True)
     elif rel == "rows-vs-idx":
         _, A, _ = run(spec, data, data["X"][unl].copy(), r["b"], r["seed"])
